@@ -57,7 +57,7 @@ Proof. intros Hh. split; try reflexivity; auto. intros n Hn. exists n. auto. Qed
 
 Lemma side_eff o s s' hi h n :
   side_step o s s' hi -> nth_error (mhandles s) hi = Some h -> get_node s (href h) = Some n ->
-  WF s -> WfOps.wf_op s o = true ->
+  WF s -> WfOps.wf_op_ord s o = true ->
   exists h', HopEff s s' hi h h' /\ WF s' /\
     (meta_op o = true -> hat h' = hat h /\ hclosed h' = (hclosed h || close_op o) /\
                          exists n', get_node s' (href h) = Some n' /\ ndata n' = ndata n).
@@ -65,19 +65,19 @@ Proof.
   intros [[-> Hc]|(ob & Hob & -> & Hwf & Hm)] Hh Hn W Hw.
   - exists h. split; [now apply hopeff_refl|]. split; [exact W|]. intros _. split; [reflexivity|]. split; [now rewrite Hc, orb_false_r|]. now exists n.
   - destruct (hop_eff s ob hi h n Hob Hh Hn) as (h' & He & Hmeta). exists h'. split; [exact He|].
-    split; [apply WF_step; [exact W | now apply Hwf]|].
+    split; [apply WF_step_ord; [exact W | now apply Hwf]|].
     intros Hmo. destruct (Hm Hmo) as [Hmb Hcb]. destruct (Hmeta Hmb) as [Ha Hcl]. split; [exact Ha|]. split; [now rewrite Hcl, Hcb|].
     exact (hop_meta_data s ob hi h n Hmb Hob Hh Hn).
 Qed.
 
-Lemma handle_op_kind o i : op_handle_of o = Some i -> WfOps.wf_op m_init o = true -> coh_op o = true \/ meta_op o = true.
+Lemma handle_op_kind o i : op_handle_of o = Some i -> WfOps.wf_op_ord m_init o = true -> coh_op o = true \/ meta_op o = true.
 Proof. destruct o; try discriminate; cbn; auto. Qed.
-Lemma wf_op_handle_any o i s s' : op_handle_of o = Some i -> WfOps.wf_op s o = WfOps.wf_op s' o.
+Lemma wf_op_handle_any o i s s' : op_handle_of o = Some i -> WfOps.wf_op_ord s o = WfOps.wf_op_ord s' o.
 Proof. destruct o; try discriminate; reflexivity. Qed.
 
 (* ---------- a method of a UnionFile of the table ---------- *)
 Lemma cinv_union_op sb sl tbl phi i u o :
-  CInvP sb sl tbl phi -> nth_error tbl i = Some (HU u) -> op_handle_of o = Some i -> WfOps.wf_op sb o = true ->
+  CInvP sb sl tbl phi -> nth_error tbl i = Some (HU u) -> op_handle_of o = Some i -> WfOps.wf_op_ord sb o = true ->
   exists phi', CInvP (fst (fst (fst (uf_op m_step m_step sb sl u o)))) (snd (fst (fst (uf_op m_step m_step sb sl u o))))
                      (list_set i (HU (snd (fst (uf_op m_step m_step sb sl u o)))) tbl) phi'.
 Proof.
@@ -86,7 +86,7 @@ Proof.
   destruct (ti_pair _ _ _ T _ _ Hphi) as (nl & nb & Hnl & Hnb & Hkind & Hdat).
   destruct (uf_op m_step m_step sb sl u o) as [[[sb' sl'] u1] r] eqn:Euf. cbn [fst snd].
   destruct (uf_op_sides sb sl u o i bh lh sb' sl' u1 r Ho Hub Hul Euf) as (Sb & Sl & Hub1 & Hul1).
-  assert (Hwfl : WfOps.wf_op sl o = true) by (rewrite (wf_op_handle_any o i sl sb Ho); exact Hwf).
+  assert (Hwfl : WfOps.wf_op_ord sl o = true) by (rewrite (wf_op_handle_any o i sl sb Ho); exact Hwf).
   destruct (side_eff o sb sb' bh hb nb Sb Hhb Hnb (ti_wfb _ _ _ T) Hwf) as (hb' & Eb & Wb' & Mb).
   destruct (side_eff o sl sl' lh hl nl Sl Hhl Hnl (ti_wfl _ _ _ T) Hwfl) as (hl' & El & Wl' & Ml).
   assert (Hinb : inert hb = inert hl).
@@ -155,13 +155,13 @@ Qed.
 
 (* ---------- a method of a base-only / layer-only handle of the table: the handle is inert ---------- *)
 Lemma inert_step s o x hx :
-  op_handle_of o = Some x -> nth_error (mhandles s) x = Some hx -> inert hx = true -> WF s -> WfOps.wf_op s o = true ->
+  op_handle_of o = Some x -> nth_error (mhandles s) x = Some hx -> inert hx = true -> WF s -> WfOps.wf_op_ord s o = true ->
   let s' := fst (m_step s o) in
   WF s' /\ Frame Some s s' /\ dkeep nobody s s' /\ (forall k, lookup s' k = lookup s k) /\
   (forall j, j <> x -> nth_error (mhandles s') j = nth_error (mhandles s) j) /\
   exists hx', nth_error (mhandles s') x = Some hx' /\ inert hx' = true.
 Proof.
-  intros Ho Hh Hin W Hwf s'. assert (W' : WF s') by (now apply WF_step).
+  intros Ho Hh Hin W Hwf s'. assert (W' : WF s') by (now apply WF_step_ord).
   destruct (get_node s (href hx)) as [n|] eqn:Hn.
   - destruct (hop_eff s o x hx n Ho Hh Hn) as (hx' & E & _). fold s' in E.
     destruct (hopeff_frame s s' x hx hx' E (fun _ _ _ => Hin)) as [F D].
@@ -178,11 +178,11 @@ Qed.
 
 Lemma op_set_handle_of o i x : op_handle_of o = Some i -> op_handle_of (op_set_handle o x) = Some x.
 Proof. destruct o; try discriminate; reflexivity. Qed.
-Lemma wf_op_set_handle o i x s : op_handle_of o = Some i -> WfOps.wf_op s (op_set_handle o x) = WfOps.wf_op s o.
+Lemma wf_op_set_handle o i x s : op_handle_of o = Some i -> WfOps.wf_op_ord s (op_set_handle o x) = WfOps.wf_op_ord s o.
 Proof. destruct o; try discriminate; reflexivity. Qed.
 
 Lemma cinv_base_handle_op sb sl tbl phi i x o :
-  CInvP sb sl tbl phi -> nth_error tbl i = Some (HB x) -> op_handle_of o = Some i -> WfOps.wf_op sb o = true ->
+  CInvP sb sl tbl phi -> nth_error tbl i = Some (HB x) -> op_handle_of o = Some i -> WfOps.wf_op_ord sb o = true ->
   exists phi', CInvP (fst (m_step sb (op_set_handle o x))) sl tbl phi'.
 Proof.
   intros [T [Tok Tsb Tsl]] Hi Ho Hwf. destruct (Tok i _ Hi) as (hx & Hh & Hin). cbn [EntOK] in *.
@@ -201,7 +201,7 @@ Proof.
 Qed.
 
 Lemma cinv_layer_handle_op sb sl tbl phi i x o :
-  CInvP sb sl tbl phi -> nth_error tbl i = Some (HL x) -> op_handle_of o = Some i -> WfOps.wf_op sb o = true ->
+  CInvP sb sl tbl phi -> nth_error tbl i = Some (HL x) -> op_handle_of o = Some i -> WfOps.wf_op_ord sb o = true ->
   exists phi', CInvP sb (fst (m_step sl (op_set_handle o x))) tbl phi'.
 Proof.
   intros [T [Tok Tsb Tsl]] Hi Ho Hwf. destruct (Tok i _ Hi) as (hx & Hh & Hin). cbn [EntOK] in *.
@@ -220,7 +220,7 @@ Qed.
 
 (* every method on a slot of the table *)
 Theorem cinv_handle_op dur now sb sl tbl o i :
-  CInv (sb, sl, tbl) -> op_handle_of o = Some i -> WfOps.wf_op sb o = true ->
+  CInv (sb, sl, tbl) -> op_handle_of o = Some i -> WfOps.wf_op_ord sb o = true ->
   CInv (fst (cache_step m_step m_step dur now (sb, sl, tbl) o)).
 Proof.
   intros (phi & C) Ho Hwf.
